@@ -59,7 +59,8 @@ def current(u, w=None, triples=None):
         rets = cp.symbolic(im)
         if rets is None:
             continue
-        out["units"][ty_str(im.self_ty)] = sorted(set(guards.label(p.value) for p in rets))
+        unname = lambda v: ("c", v[2]) if (isinstance(v, tuple) and v and v[0] == "namedc" and isinstance(v[2], int)) else v
+        out["units"][ty_str(im.self_ty)] = sorted(set(guards.label(unname(p.value)) for p in rets))
     return out
 
 
